@@ -601,7 +601,7 @@ func checkC22(c *Case) {
 			}
 			continue
 		}
-		var removed [][]int32
+		var removed, fuzzy [][]int32
 		add := func(st *Strip, sib bool) error {
 			el, ok := findElem(in, c.Kind, sib)
 			if !ok {
@@ -615,6 +615,13 @@ func checkC22(c *Case) {
 				}
 				removed = append(removed, append(el.optionsPath(), np...))
 			}
+			for _, steps := range st.Fuzzy {
+				np, err := numericPath(of.Message(), res, steps)
+				if err != nil {
+					return err
+				}
+				fuzzy = append(fuzzy, append(el.optionsPath(), np...))
+			}
 			return nil
 		}
 		err = add(c.Strip, false)
@@ -625,9 +632,21 @@ func checkC22(c *Case) {
 			report("harness", c, src, tag+": "+err.Error())
 			return
 		}
+		// locations inside the entries of a map whose values lost fields are not decided (no entry index)
+		undecided := func(p []int32) bool {
+			for _, f := range fuzzy {
+				if hasPrefix(p, f) && len(p) >= len(f)+2 {
+					return true
+				}
+			}
+			return false
+		}
 		var want []*descriptorpb.SourceCodeInfo_Location
 		under := 0
 		for _, loc := range in.SourceCodeInfo.Location {
+			if undecided(loc.Path) {
+				continue
+			}
 			gone := false
 			for _, r := range removed {
 				if hasPrefix(loc.Path, r) {
@@ -646,6 +665,9 @@ func checkC22(c *Case) {
 		wi := 0
 		var extra *descriptorpb.SourceCodeInfo_Location
 		for _, g := range got {
+			if undecided(g.Path) {
+				continue
+			}
 			if wi < len(want) && proto.Equal(g, want[wi]) {
 				wi++
 			} else if extra == nil {
